@@ -401,11 +401,25 @@ impl TextSelection {
             self.begin + self.beginaligned_cursor(&offset.begin)?,
             self.begin + self.beginaligned_cursor(&offset.end)?,
         );
-        Ok(TextSelection {
-            intid: None,
-            begin,
-            end,
-        })
+        if end > self.end {
+            //(this also covers the begin, as it may not come after the end)
+            Err(StamError::CursorOutOfBounds(
+                offset.end,
+                "TextSelection::textselection_by_offset(): offset exceeds the text selection",
+            ))
+        } else if end < begin {
+            Err(StamError::InvalidOffset(
+                offset.begin,
+                offset.end,
+                "End must be greater than begin",
+            ))
+        } else {
+            Ok(TextSelection {
+                intid: None,
+                begin,
+                end,
+            })
+        }
     }
 
     /// Convert this text selection to its higher level API counterpart
